@@ -13,6 +13,7 @@ func init() {
 			"EFFECT: LineFilter, LabelMatcher and the string/ip matchers write neither receiver nor label set; typed label filters write only SetError; DistinctFilter is stateful (excluded by the property's wording)",
 			"LP-PIPE: one Process call per stage per record",
 			"LP-OFFLOAD provenance: a pipeline label filter is never offloaded as selector matcher",
+			"CH-MAP GetFloat kinds; LP-BUILD: a stage is not wrapped between its builder and the pipeline",
 		},
 		NotDecided: []string{"strings.Contains(s, \"\") being true (library semantics)", "regexp engine semantics"},
 		Rules: func(r *Run) {
